@@ -3,6 +3,7 @@ package wm
 import (
 	"fmt"
 	"go/token"
+	"strings"
 	"go/types"
 
 	"golang.org/x/tools/go/ssa"
@@ -94,36 +95,7 @@ func c19All(c *Check, P string) {
 // itself writes no metadata entry, payload or UUID of the consumed message (DelayOnError: only on the failure edge).
 func c19MessageUntouched(c *Check, P, name string, m *MW) {
 	I := m.Inner
-	isMeta := func(v ssa.Value) bool {
-		return AnyOrigin(v, func(o ssa.Value) bool {
-			u, ok := o.(*ssa.UnOp)
-			if !ok || u.Op != token.MUL {
-				return false
-			}
-			f, base := FieldOf(u.X)
-			return f != nil && f.Name() == "Metadata" && base != nil && m.IsMsg(base)
-		})
-	}
-	var writes []ssa.Instruction
-	AllInstrs(I, func(in ssa.Instruction) {
-		switch x := in.(type) {
-		case *ssa.MapUpdate:
-			if isMeta(x.Map) {
-				writes = append(writes, in)
-			}
-		case *ssa.Store:
-			if f, base := FieldOf(x.Addr); f != nil && base != nil && m.IsMsg(base) && (f.Name() == "Metadata" || f.Name() == "Payload" || f.Name() == "UUID") {
-				writes = append(writes, in)
-			}
-		case ssa.CallInstruction:
-			if args, ok := IsBuiltinCall(valueOfCall(x), "delete"); ok && len(args) > 0 && isMeta(args[0]) {
-				writes = append(writes, in)
-			}
-			if CalleeName(x) == nMetaSet && isMeta(Receiver(x)) {
-				writes = append(writes, in)
-			}
-		}
-	})
+	writes := MessageWrites(I, m.IsMsg)
 	var fail []Edge
 	if name == "DelayOnError" {
 		_, fail = NilEdges(I, ResultOfAny(m.HCalls, 1))
@@ -132,6 +104,49 @@ func c19MessageUntouched(c *Check, P, name string, m *MW) {
 		c.Report(len(fail) > 0 && GuardedBy(I, w, fail), P+".O1", "CONSUMED-MESSAGE-UNTOUCHED", I, w.Pos(), name+": write to the consumed message", "the middleware does not edit the consumed message (metadata, payload, UUID) outside its documented effect — successes pass through untouched")
 	}
 	c.Report(true, P+".O1", "CONSUMED-MESSAGE-WRITES-SCANNED", I, I.Pos(), name, fmt.Sprintf("%d direct writes to the consumed message examined", len(writes)))
+}
+
+// MessageWrites lists the instructions of fn (and its looked-through helpers) that edit a message isMsg accepts:
+// stores to UUID / Payload / Metadata, map updates, delete, clear, Metadata.Set, and the maps package's in-place editors.
+func MessageWrites(fn *ssa.Function, isMsg func(ssa.Value) bool) []ssa.Instruction {
+	isMeta := func(v ssa.Value) bool {
+		return AnyOrigin(v, func(o ssa.Value) bool {
+			u, ok := o.(*ssa.UnOp)
+			if !ok || u.Op != token.MUL {
+				return false
+			}
+			f, base := FieldOf(u.X)
+			return f != nil && f.Name() == "Metadata" && base != nil && isMsg(base)
+		})
+	}
+	var writes []ssa.Instruction
+	AllInstrs(fn, func(in ssa.Instruction) {
+		switch x := in.(type) {
+		case *ssa.MapUpdate:
+			if isMeta(x.Map) {
+				writes = append(writes, in)
+			}
+		case *ssa.Store:
+			if f, base := FieldOf(x.Addr); f != nil && base != nil && isMsg(base) && (f.Name() == "Metadata" || f.Name() == "Payload" || f.Name() == "UUID") {
+				writes = append(writes, in)
+			}
+		case ssa.CallInstruction:
+			for _, b := range []string{"delete", "clear"} {
+				if args, ok := IsBuiltinCall(valueOfCall(x), b); ok && len(args) > 0 && isMeta(args[0]) {
+					writes = append(writes, in)
+				}
+			}
+			if CalleeName(x) == nMetaSet && isMeta(Receiver(x)) {
+				writes = append(writes, in)
+			}
+			if cal := CalleeFn(x.Common()); cal != nil && cal.Pkg != nil && cal.Pkg.Pkg.Path() == "maps" && len(x.Common().Args) > 0 && isMeta(x.Common().Args[0]) {
+				if n := cal.Name(); strings.HasPrefix(n, "DeleteFunc") || strings.HasPrefix(n, "Copy") || strings.HasPrefix(n, "Insert") {
+					writes = append(writes, in)
+				}
+			}
+		}
+	})
+	return writes
 }
 
 // valueOfCall gives the call as a value when it is one (builtin calls used as statements are *ssa.Call too).
@@ -608,6 +623,11 @@ func c19Delay(c *Check, P string, m *MW) {
 			helpers = append(helpers, cl)
 		}
 	}
+	direct := false
+	if len(helpers) == 0 {
+		// no helper: the stamp is written in the middleware's own body
+		helpers, direct = CallsTo(I, delayPkg+".Message"), true
+	}
 	if !c.Floor(P+".O2", "DelayOnError: call of the delay helper", len(helpers), 1) {
 		return
 	}
@@ -633,6 +653,9 @@ func c19Delay(c *Check, P string, m *MW) {
 		c.Report(!InLoop(h), P+".O2", "DELAY-ONCE", I, h.Pos(), "DelayOnError", "one stamp per failure")
 	}
 	H := CalleeFn(helpers[0].Common())
+	if direct {
+		H = I
+	}
 	c.Use(P+".O4", H, "DelayOnError delay helper")
 	isMul := func(v ssa.Value) bool { return AllOrigins(v, exportedFieldLoad("Multiplier")) }
 	// O4: float→int conversions take the product
